@@ -118,6 +118,10 @@ Importer::~Importer()
 
 std::vector<ImportSourcePtr>::const_iterator Importer::ImporterImpl::findImportSource(const ImportSourcePtr &importSource) const
 {
+    if (importSource == nullptr) {
+        return mImports.end();
+    }
+
     return std::find_if(mImports.begin(), mImports.end(),
                         [=](const ImportSourcePtr &importSrc) -> bool { return importSource->equals(importSrc); });
 }
@@ -686,6 +690,10 @@ void clearComponentImports(const ComponentPtr &component)
 
 void Importer::clearImports(ModelPtr &model)
 {
+    if (model == nullptr) {
+        return;
+    }
+
     // Clear the models from all import sources in the model.
     for (size_t u = 0; u < model->unitsCount(); ++u) {
         auto mu = model->units(u);
@@ -1027,6 +1035,10 @@ ModelPtr Importer::library(const size_t &index)
 
 bool Importer::addModel(const ModelPtr &model, const std::string &key)
 {
+    if (model == nullptr) {
+        return false;
+    }
+
     auto normalisedKey = normaliseDirectorySeparator(key);
     if (pFunc()->mLibrary.count(normalisedKey) != 0) {
         // If the key already exists in the library, do nothing.
